@@ -78,6 +78,9 @@ USER_SOURCES = {
     'closed-stdout-print': (['import sys'], "sys.stdout.close() or print('after close')", 'ValueError'),
     'many-inputs-then-fail': (['def read_many(n):', '    for _ in range(n):', '        input()', '    return 0'], "read_many(45) or int('not a number')", 'ValueError'),
     'runaway-input-loop': (['def read_forever():', '    while True:', "        input('more?')  " + MARK], 'read_forever()', None),
+    # the failure is raised many pure-Python library frames below the student's line
+    'deep-stdlib-json': (['import json'], "json.dumps({'a': [{'b': [{'c': [{'d': [{1, 2}]}]}]}]}, indent=2)", 'TypeError'),
+    'deep-stdlib-copy': (['import copy'], "copy.deepcopy({'a': [[[[[[[(x for x in [1])]]]]]]]})", 'TypeError'),
     'int-too-long': ([], "int('9' * 5000)", 'ValueError'),
     'chained-from': ([], "raise ValueError('outer') from KeyError('inner')", 'ValueError'),
     'chained-from-none': ([], "raise TypeError('no context') from None", 'TypeError'),
